@@ -28,10 +28,12 @@ MOD = "pv.props.c11"
 
 
 class AccessOb(SmtOb):
-    def __init__(self, oid, model, accesses, size_params, info):
+    def __init__(self, oid, model, accesses, size_params, info, xcheck_every=0):
         super().__init__()
         self.oid, self.model, self.accesses, self.size_params, self.info = oid, model, accesses, size_params, info
         self.params, self.samples = [], []
+        self.xcheck_every = xcheck_every
+        self.stats = {}
 
     def solve(self):
         from pv.sem import bounds as B
@@ -39,8 +41,12 @@ class AccessOb(SmtOb):
         n = nsafe = ndd = 0
         ts = 0.0
         unsafe, unknown = [], []
+        xc = {"agree": 0, "cvc5_unknown": 0, "disagree": 0}
         for a in self.accesses:
-            r = B.check(self.model, a, self.size_params)
+            do_x = bool(self.xcheck_every) and n % self.xcheck_every == 0
+            r = B.check(self.model, a, self.size_params, xcheck=do_x)
+            if "cvc5" in r:
+                xc["disagree" if "disagreement" in r else "agree" if r["cvc5"] in ("sat", "unsat") else "cvc5_unknown"] += 1
             n += 1
             ts += r["solver_s"]
             if r["status"] == "safe":
@@ -54,6 +60,9 @@ class AccessOb(SmtOb):
         res = {"solver_queries": n, "solver_s": round(ts, 3), "wall_s": round(time.time() - t0, 3),
                "accesses": n, "safe": nsafe, "data_dependent_skipped": ndd}
         self.info.update({"accesses": n, "proved_in_bounds": nsafe, "data_dependent (caller's responsibility)": ndd})
+        if self.xcheck_every:
+            self.info["cvc5 cross-check"] = xc
+            self.stats = {"cvc5_agree": xc["agree"], "cvc5_unknown": xc["cvc5_unknown"], "cvc5_disagree": xc["disagree"]}
         if unsafe:
             a, r = unsafe[0]
             res.update(status="refuted", args={"insn": a.insn, "array": a.array, "axis": a.axis, "index": str(a.index),
@@ -107,7 +116,7 @@ class AccessOb(SmtOb):
         return not (0 <= iv < ev), {"index_value": int(iv), "extent": int(ev), "point": ctx, "access": f"{a.array}[axis {a.axis}]"}
 
 
-def static_job(prog: str, variant: str = "plain", seed: int = 0) -> JobOut:
+def static_job(prog: str, variant: str = "plain", seed: int = 0, xcheck: int = 0) -> JobOut:
     from pv.sem import bounds as B
     progs = {p.name: p for p in C.corpus("thorough" if prog.startswith("gen") else "quick", seed)}
     P = progs[prog]
@@ -116,7 +125,8 @@ def static_job(prog: str, variant: str = "plain", seed: int = 0) -> JobOut:
     except Exception as e:  # noqa: BLE001
         return JobOut(declined=f"no kernel (C01/C07's subject): {type(e).__name__}: {e}")
     acc = B.collect(G.model)
-    ob = AccessOb(f"{prog}/{variant}/accesses", G.model, acc, (), {"program": prog, "variant": variant, "sizes": "static"})
+    ob = AccessOb(f"{prog}/{variant}/accesses", G.model, acc, (), {"program": prog, "variant": variant, "sizes": "static"},
+                  xcheck_every=xcheck)
     sides = []
     for name in G.model.writers:
         if name in G.model.args or (name in G.model.temps and G.model.temps[name].shape != ()):
@@ -129,7 +139,7 @@ def static_job(prog: str, variant: str = "plain", seed: int = 0) -> JobOut:
     return JobOut(obs=[ob], sides=sides)
 
 
-def sym_job(prog: str) -> JobOut:
+def sym_job(prog: str, xcheck: int = 0) -> JobOut:
     import pytato as pt
     from pv.props.c05 import _target
     from pv.sem import bounds as B
@@ -147,7 +157,7 @@ def sym_job(prog: str) -> JobOut:
         return JobOut(declined=f"no kernel (C16's subject): {type(e).__name__}: {e}")
     acc = B.collect(model)
     ob = AccessOb(f"{prog}/accesses", model, acc, P.sizes, {"program": prog, "size parameters": list(P.sizes),
-                                                            "sizes": "all values >= 0 (symbolic)"})
+                                                            "sizes": "all values >= 0 (symbolic)"}, xcheck_every=xcheck)
     sides = []
     for name in model.writers:
         if name in model.args or (name in model.temps and model.temps[name].shape != ()):
@@ -164,12 +174,13 @@ def jobs(tier: str, seed: int):
     th = tier == "thorough"
     J = []
     progs = C.corpus(tier, seed)
+    xc = 5 if th else 0        # thorough: every 5th query is also handed to cvc5
     for P in progs:
-        J.append(Job(MOD, "static_job", {"prog": P.name, "variant": "plain", "seed": seed}, jid=f"{P.name}/plain", hard_timeout=600))
+        J.append(Job(MOD, "static_job", {"prog": P.name, "variant": "plain", "seed": seed, "xcheck": xc}, jid=f"{P.name}/plain", hard_timeout=900))
         for v in (["all_stored", "all_subst", "alternate", "random0"] if th else ["alternate"]):
-            J.append(Job(MOD, "static_job", {"prog": P.name, "variant": v, "seed": seed}, jid=f"{P.name}/{v}", hard_timeout=600))
+            J.append(Job(MOD, "static_job", {"prog": P.name, "variant": v, "seed": seed, "xcheck": xc}, jid=f"{P.name}/{v}", hard_timeout=900))
     for P in C.SYM_CORPUS:
-        J.append(Job(MOD, "sym_job", {"prog": P.name}, jid=f"{P.name}/sym", hard_timeout=600))
+        J.append(Job(MOD, "sym_job", {"prog": P.name, "xcheck": 2 if th else 0}, jid=f"{P.name}/sym", hard_timeout=900))
     meta = {
         "programs": len(progs) + len(C.SYM_CORPUS),
         "explanation": "One z3 query per array access of every generated kernel: iteration domain (from the kernel's ISL "
